@@ -2,6 +2,8 @@ package props
 
 import (
 	"bytes"
+	"encoding/json"
+	"os"
 	"fmt"
 	"io"
 	"math"
@@ -301,7 +303,15 @@ type c10Case struct {
 	SortRun   int       `json:"sort_run_rows,omitempty"`
 	Dedupe    bool      `json:"drop_duplicated_rows,omitempty"`
 	Extra     int       `json:"rows_written_after_first_sort"` // -1: single phase
-	Rows      []string  `json:"rows"`                          // canonical rows (Deconstruct)
+	Rows      []string  `json:"rows,omitempty"`                // canonical rows (Deconstruct), informational
+	Input     json.RawMessage `json:"input_rows,omitempty"`      // the Go rows written (JSON of []T): replayable
+	InputMore json.RawMessage `json:"input_rows_after_first_sort,omitempty"`
+	Kernel    *c10KernelCase  `json:"kernel,omitempty"`          // corpus only: one kernel call
+}
+
+type c10KernelCase struct {
+	Base int32 `json:"base"`
+	Len  int   `json:"len"`
 }
 
 type c10Phase struct {
@@ -878,11 +888,34 @@ type c10TypeInfo struct {
 	cols [][]string // candidate sorting columns; repeated ones last
 	nrep int        // how many of them are repeated
 	run  func(ctx *core.Ctx, cs *c10Case, r *rand.Rand, n int, small bool)
+	// replay runs a recorded case (corpus file or the case of a replay file)
+	replay func(ctx *core.Ctx, cs *c10Case) error
+}
+
+func c10ReplayAs[T any](ctx *core.Ctx, cs *c10Case) error {
+	var rows, extra []T
+	if len(cs.Input) > 0 {
+		if err := json.Unmarshal(cs.Input, &rows); err != nil {
+			return err
+		}
+	}
+	if len(cs.InputMore) > 0 {
+		if err := json.Unmarshal(cs.InputMore, &extra); err != nil {
+			return err
+		}
+	}
+	c10Exec(ctx, cs, rows, extra)
+	return nil
 }
 
 func c10Exec[T any](ctx *core.Ctx, cs *c10Case, rows, extra []T) {
 	schema := parquet.SchemaOf(new(T))
+	cs.Input, _ = json.Marshal(rows)
+	if cs.Extra >= 0 {
+		cs.InputMore, _ = json.Marshal(extra)
+	}
 	res, in1, in2 := c10Run(cs, rows, extra)
+	cs.Rows = nil
 	for _, r := range in1 {
 		cs.Rows = append(cs.Rows, c10Canon(r))
 	}
@@ -939,7 +972,7 @@ var c10Types = []c10TypeInfo{
 				extra = c10GenA(r, cs.Extra, small, 5000)
 			}
 			c10Exec(ctx, cs, rows, extra)
-		}},
+		}, replay: c10ReplayAs[c10A]},
 	{name: "B{g {x *int32?; y}?; l []int32; t string; id}", cols: [][]string{{"g", "x"}, {"g", "y"}, {"t"}, {"id"}, {"l"}}, nrep: 1,
 		run: func(ctx *core.Ctx, cs *c10Case, r *rand.Rand, n int, small bool) {
 			rows := c10GenB(r, n, small, 1000)
@@ -948,7 +981,7 @@ var c10Types = []c10TypeInfo{
 				extra = c10GenB(r, cs.Extra, small, 5000)
 			}
 			c10Exec(ctx, cs, rows, extra)
-		}},
+		}, replay: c10ReplayAs[c10B]},
 	{name: "C{u uint32; f *float64?; b bool; y []byte?; w []string; id}", cols: [][]string{{"u"}, {"f"}, {"b"}, {"y"}, {"id"}, {"w"}}, nrep: 1,
 		run: func(ctx *core.Ctx, cs *c10Case, r *rand.Rand, n int, small bool) {
 			rows := c10GenC(r, n, small, 1000)
@@ -957,7 +990,47 @@ var c10Types = []c10TypeInfo{
 				extra = c10GenC(r, cs.Extra, small, 5000)
 			}
 			c10Exec(ctx, cs, rows, extra)
-		}},
+		}, replay: c10ReplayAs[c10C]},
+}
+
+// c10ReplayFile runs one recorded case: a corpus file (a c10Case) or a replay file written by
+// ./check (the case sits under detail.case).
+func c10ReplayFile(ctx *core.Ctx, path string) {
+	b, err := os.ReadFile(path)
+	if err != nil {
+		ctx.Fail("L2", "corpus-unreadable", err.Error(), map[string]any{"file": path})
+		return
+	}
+	var wrapped struct {
+		Detail struct {
+			Case *c10Case `json:"case"`
+			Len  *int     `json:"len"`
+			Base *int32   `json:"base"`
+		} `json:"detail"`
+	}
+	cs := new(c10Case)
+	if json.Unmarshal(b, &wrapped) == nil && wrapped.Detail.Case != nil {
+		cs = wrapped.Detail.Case
+	} else if json.Unmarshal(b, &wrapped) == nil && wrapped.Detail.Len != nil && wrapped.Detail.Base != nil {
+		cs.Kernel = &c10KernelCase{Base: *wrapped.Detail.Base, Len: *wrapped.Detail.Len}
+	} else if err := json.Unmarshal(b, cs); err != nil {
+		ctx.Fail("L2", "corpus-unreadable", err.Error(), map[string]any{"file": path})
+		return
+	}
+	ctx.Hist("corpus", "replayed")
+	if cs.Kernel != nil {
+		c10KernelOne(ctx, cs.Kernel.Len, cs.Kernel.Base, 0, nil, nil)
+		return
+	}
+	for _, t := range c10Types {
+		if strings.HasPrefix(t.name, cs.Type) {
+			if err := t.replay(ctx, cs); err != nil {
+				ctx.Fail("L2", "corpus-unreadable", err.Error(), map[string]any{"file": path})
+			}
+			return
+		}
+	}
+	ctx.Fail("L2", "corpus-unreadable", "unknown type "+cs.Type, map[string]any{"file": path})
 }
 
 var c10Sizes = []int{0, 1, 2, 3, 5, 8, 9, 10, 16, 17, 18, 33, 64, 65, 66, 100, 130}
@@ -1022,45 +1095,48 @@ func c10Kernel(ctx *core.Ctx, d interface {
 	for _, n := range lens {
 		for _, base := range bases {
 			for _, slack := range []int{0, 3} { // capacity larger than the length, dirty
-				buf := make([]int32, n+slack)
-				for i := range buf {
-					buf[i] = 0x7f7f7f7f
-				}
-				dst := buf[:n]
-				parquet.VerifBroadcastRangeInt32(dst, base)
-				ctx.Case(fmt.Sprintf("bcast %d %d %d", base, n, slack), n >= 8 && n%8 != 0)
-				ctx.Hist("kernel-length", fmt.Sprint(min(n, 41)))
-				// L1: non-null runs get consecutive indexes
-				for i := range dst {
-					if dst[i] != base+int32(i) {
-						c10KernelBad.Store(true)
-						ctx.Fail("L1", "broadcast-range-avx2-tail",
-							fmt.Sprintf("broadcastRangeInt32(dst[:%d], %d): dst[%d] = %d, want %d", n, base, i, dst[i], base+int32(i)),
-							map[string]any{"len": n, "base": base, "dst": core.JoinInts(dst), "variant": ctx.Variant})
-						break
-					}
-				}
-				for i := n; i < len(buf); i++ {
-					if buf[i] != 0x7f7f7f7f {
-						ctx.Fail("L1", "broadcast-range-writes-past-len", fmt.Sprintf("broadcastRangeInt32(dst[:%d], %d) wrote beyond len", n, base),
-							map[string]any{"len": n, "base": base})
-					}
-				}
-				if slack == 0 {
-					got := "ok " + core.JoinInts(dst)
-					reqs = append(reqs, fmt.Sprintf("bcast %s %d %d", ctx.Variant, base, n))
-					nn, bb := n, base
-					pend = append(pend, func(ans string) {
-						if ans != got {
-							ctx.Fail("L2", "broadcast-range-mirror", "broadcastRangeInt32 differs from the Lean mirror",
-								map[string]any{"len": nn, "base": bb, "impl": got, "model": ans, "variant": ctx.Variant})
-						}
-					})
-				}
+				c10KernelOne(ctx, n, base, slack, &reqs, &pend)
 			}
 		}
 	}
 	c06Flush(ctx, d, &reqs, &pend)
+}
+
+func c10KernelOne(ctx *core.Ctx, n int, base int32, slack int, reqs *[]string, pend *[]func(string)) {
+	buf := make([]int32, n+slack)
+	for i := range buf {
+		buf[i] = 0x7f7f7f7f
+	}
+	dst := buf[:n]
+	parquet.VerifBroadcastRangeInt32(dst, base)
+	ctx.Case(fmt.Sprintf("bcast %d %d %d", base, n, slack), n >= 8 && n%8 != 0)
+	ctx.Hist("kernel-length", fmt.Sprint(min(n, 41)))
+	// L1: non-null runs get consecutive indexes
+	for i := range dst {
+		if dst[i] != base+int32(i) {
+			c10KernelBad.Store(true)
+			ctx.Fail("L1", "broadcast-range-avx2-tail",
+				fmt.Sprintf("broadcastRangeInt32(dst[:%d], %d): dst[%d] = %d, want %d", n, base, i, dst[i], base+int32(i)),
+				map[string]any{"len": n, "base": base, "dst": core.JoinInts(dst), "variant": ctx.Variant})
+			break
+		}
+	}
+	for i := n; i < len(buf); i++ {
+		if buf[i] != 0x7f7f7f7f {
+			ctx.Fail("L1", "broadcast-range-writes-past-len", fmt.Sprintf("broadcastRangeInt32(dst[:%d], %d) wrote beyond len", n, base),
+				map[string]any{"len": n, "base": base})
+		}
+	}
+	if slack == 0 && reqs != nil {
+		got := "ok " + core.JoinInts(dst)
+		*reqs = append(*reqs, fmt.Sprintf("bcast %s %d %d", ctx.Variant, base, n))
+		*pend = append(*pend, func(ans string) {
+			if ans != got {
+				ctx.Fail("L2", "broadcast-range-mirror", "broadcastRangeInt32 differs from the Lean mirror",
+					map[string]any{"len": n, "base": base, "impl": got, "model": ans, "variant": ctx.Variant})
+			}
+		})
+	}
 }
 
 // one history on a single optional int64 column: typed writes (runs), row writes, Swap, Less, Page
@@ -1248,14 +1324,29 @@ func c10History(ctx *core.Ctx, r *rand.Rand, reqs *[]string, pend *[]func(string
 func RunC10(ctx *core.Ctx) {
 	ctx.SetRule("L1: sort.Sort on GenericBuffer[T] (typed Write and WriteRows), Buffer, RowBuffer[T], and SortingWriter[T] Close over three struct schemas (required / optional pointer / optional zero-is-null / nested optional group / repeated leaves), 0-3 sorting columns x asc/desc x nulls first/last, null and value runs of length 1,2,3,7,8,9,15,16,17,64,65, small alphabets (duplicates), write batches around 8 and 64, optional second phase (write more, sort again); L2: broadcastRangeInt32 for lengths 0..40,63..65,127..129,255,257 x 17 bases, and write/Swap/Less/Page histories on one optional column against the Lean OptCol mirror. Distinct by canonical input; non-trivial = some nullable sorting column holds both nulls and values (L1), run length >= 8 not a multiple of 8 (kernel), more than 3 ops (history)")
 	d := ctx.Driver()
+	if ctx.Replay != "" {
+		c10ReplayFile(ctx, ctx.Replay)
+		return
+	}
+	// 0. the kernel corpus cases, then the kernel sweep, then the recorded sort cases
+	for _, f := range ctx.CorpusFiles() {
+		if strings.Contains(f, "kernel") {
+			c10ReplayFile(ctx, f)
+		}
+	}
 	// 1. the kernel first: later symptoms are attributed to it when it is broken
 	c10Kernel(ctx, d)
+	for _, f := range ctx.CorpusFiles() {
+		if !strings.Contains(f, "kernel") {
+			c10ReplayFile(ctx, f)
+		}
+	}
 	// 2. L2 histories
 	{
 		r := ctx.Rand("c10-history")
 		var reqs []string
 		var pend []func(string)
-		for i, n := 0, ctx.Scale(4000, 60000); i < n; i++ {
+		for i, n := 0, ctx.Scale(6000, 90000); i < n; i++ {
 			c10History(ctx, r, &reqs, &pend)
 			if len(reqs) >= 2000 {
 				c06Flush(ctx, d, &reqs, &pend)
@@ -1265,7 +1356,7 @@ func RunC10(ctx *core.Ctx) {
 	}
 	// 3. L1 cases, in parallel per worker (each with its own PRNG stream)
 	workers := 16
-	per := ctx.Scale(3000, 90000) / workers
+	per := ctx.Scale(8000, 240000) / workers
 	var wg sync.WaitGroup
 	for w := 0; w < workers; w++ {
 		wg.Add(1)
